@@ -2082,12 +2082,15 @@ func instMulUpperSS(interp *Interpreter, pc ProgramCounter, skipLength ProgramCo
 	signedA := int64(interp.Registers[rA])
 	signedB := int64(interp.Registers[rB])
 
-	hi, _ := bits.Mul64(uint64(abs(signedA)), uint64(abs(signedB)))
+	hi, lo := bits.Mul64(uint64(abs(signedA)), uint64(abs(signedB)))
 
 	if (signedA < 0) == (signedB < 0) {
 		interp.Registers[rD] = hi
-	} else {
+	} else if lo == 0 {
 		interp.Registers[rD] = uint64(-int64(hi))
+	} else {
+		// negating the 128-bit product borrows from the upper word when the lower word is non-zero
+		interp.Registers[rD] = ^hi
 	}
 
 	return ExitContinue, pc
